@@ -10,7 +10,7 @@ func vhCoord() float64 {
 	return x
 }
 
-func vhSeg(p *Path, kind int) [][2]float64 {
+func vhAppendSeg(p *Path, kind int) [][2]float64 {
 	var pts [][2]float64
 	switch kind {
 	case 0:
@@ -38,9 +38,9 @@ func VH_C08_fastbounds_hull() {
 	x0, y0 := vhCoord(), vhCoord()
 	p.d = append(p.d, MoveToCmd, x0, y0, MoveToCmd)
 	pts := [][2]float64{{x0, y0}}
-	n := vChoose(1, 2)
+	n := vChoose(1, 1+vTier())
 	for i := 0; i < n; i++ {
-		pts = append(pts, vhSeg(p, vChoose(0, 3))...)
+		pts = append(pts, vhAppendSeg(p, vChoose(0, 3))...)
 	}
 	r := p.FastBounds()
 	for _, pt := range pts {
